@@ -38,7 +38,7 @@ TABLE_THEOREMS = ["legendre_table_orthogonal", "legendre_table_orthogonal_integr
                   "xi_antisymmetric", "xi_nested", "xi_sorted", "xi_shape", "xi_bits_exact",
                   "newton_table_is_cc_nodal_poly", "newton_table_vanishes_on_nodes", "xi_newton_residual",
                   "bdef_integrals_exact", "quad_constants"]
-FAMILIES = ["poly", "exp", "osc", "lorentz", "gauss", "sqrt_sing", "kink", "jump"]
+FAMILIES = ["poly", "exp", "osc", "lorentz", "gauss", "sqrt_sing", "two_sing", "holes", "kink", "jump"]
 RANGES = [(-1.0, 1.0), (0.0, 1.0), (0.0, 3.5), (-2.0, 5.0)]
 SLACK = 1e-13
 
@@ -100,6 +100,33 @@ def make_family(fam, rng):
                 return c0 + A / np.sqrt(x - a)  # +inf at the left end point
 
         return f, a, b, exact, p
+    if fam == "two_sing":
+        # integrable singularities at BOTH end points: two non-finite nodes in one interval (each is down-dated in turn)
+        A = rng.uniform(0.2, 2.0)
+        c0 = rng.choice([0.0, rng.uniform(-1.0, 1.0)])
+        p.update(A=A, c0=c0)
+        exact = A * math.pi + c0 * (b - a)
+
+        def f2(x):
+            with np.errstate(divide="ignore", invalid="ignore"):
+                return c0 + A / np.sqrt((x - a) * (b - x))  # +inf at both end points
+
+        return f2, a, b, exact, p
+    if fam == "holes":
+        # a smooth integrand that is not defined (NaN) at isolated nodes: both end points and the mid point
+        k = rng.choice([-1, 1]) * rng.uniform(0.1, 2.0)
+        A = rng.uniform(0.2, 3.0)
+        p.update(k=k, A=A)
+        exact = A * math.exp(k * a) * math.expm1(k * (b - a)) / k
+        mid = (a + b) / 2
+        holes = [a, b] + ([mid] if rng.random() < 0.5 else [])
+
+        def f3(x):
+            y = A * np.exp(k * np.asarray(x, dtype=float))
+            y = np.where(np.isin(np.asarray(x, dtype=float), holes), np.nan, y)
+            return y if np.ndim(x) else float(y)
+
+        return f3, a, b, exact, p
     if fam == "kink":
         c = rng.uniform(a, b)
         A = rng.uniform(0.2, 2.0)
@@ -565,7 +592,10 @@ def run(ctx):
             s["done_with_removed_intervals"] += 1 if r.get("removed") else 0
         if r["fail"]:
             s["violations"] += 1
-            rec = {"clause": "closed_form_bound", "signature": f"C08.closed.{r['family']}", "detail": r["fail"],
+            sig = f"C08.closed.{r['family']}"
+            if r["family"] == "holes" and r["mode"] == "shuffled":
+                sig = "C08.closed.holes:nan_nodes_with_out_of_order_delivery"
+            rec = {"clause": "closed_form_bound", "signature": sig, "detail": r["fail"],
                    "replay": {"part": "closed", "family": r["family"], "seed": r["seed"], "cap": r["cap"]}}
             (counted if r["family"] in CLOSED_COUNTED else failures).append(rec)
     # differential
